@@ -53,8 +53,8 @@ fn injections(n: usize, m: usize) -> Vec<Vec<usize>> {
 impl C14 {
     pub fn new() -> C14 {
         C14 {
-            quick: Pool::new(499),
-            thorough: Pool::new(41),
+            quick: Pool::new(887),
+            thorough: Pool::new(97),
         }
     }
     fn pool(&self, tier: Tier) -> &Pool {
@@ -266,7 +266,7 @@ impl Property for C14 {
     }
     fn info(&self, tier: Tier) -> Info {
         Info {
-            rule: "templates = program pool (every 499th / 41st member of the quick S family, clean and with each injected violation); for each template the full orbit of the temporaries it mentions (every injective assignment of up to 3 t-slots to t0-t6: up to 210), the full orbit of its saved registers (up to 3 s-slots to s0-s11: up to 1320), and label renamings from a pool of 12 identifiers differing in length, case, digits, leading underscores and sort order (all injective maps for <= 2 labels; otherwise every single substitution - each label takes each pool name - plus 24 rotations/reflections): the diagnostics of the renamed program, positions compared by (statement index, operand role) and registers mapped back, must equal the template's. Non-trivial = templates that draw at least one diagnostic".into(),
+            rule: "templates = program pool (every 887th / 97th member of the quick S family, clean and with each injected violation); for each template the full orbit of the temporaries it mentions (every injective assignment of up to 3 t-slots to t0-t6: up to 210), the full orbit of its saved registers (up to 3 s-slots to s0-s11: up to 1320), and label renamings from a pool of 12 identifiers differing in length, case, digits, leading underscores and sort order (all injective maps for <= 2 labels; otherwise every single substitution - each label takes each pool name - plus 24 rotations/reflections): the diagnostics of the renamed program, positions compared by (statement index, operand role) and registers mapped back, must equal the template's. Non-trivial = templates that draw at least one diagnostic".into(),
             bounds: json!({"templates": self.pool(tier).count(), "t_class": 7, "s_class": 12, "label_pool": LABEL_POOL}),
             assumptions: vec!["canonical hash-order schedule; dependence on label hash order is C10's subject".into()],
             states_counter: "templates",
